@@ -45,7 +45,7 @@ array::content *path::array_content() const
 	}
 	return reinterpret_cast<array::content *>(const_cast<char *>(base)) - 1;
 }
-path::path(const char *path, int s, int a) : base(0), off(0), len(0)
+path::path(const char *path, int s, int a) : base(0), off(0), len(0), first(0), flags(0)
 {
 	sep = s;
 	assign = a;
